@@ -176,7 +176,7 @@ func (m *monRoll) TaskEnd(s *Sim, t *Task) {
 
 	// ---- C09 / C03: limits of the active role ----
 	if f.role == "active" {
-		if maxU, ok := resolvePct(ru.MaxUnavailable, nT, true); ok && nT > 0 {
+		if maxU, ok := resolvePct(ru.MaxUnavailable, nT, true); ok && nT > 0 && maxU >= 0 {
 			if len(f.updateDel) > 0 {
 				s.Stats.NonVacuous["C09.update-del"]++
 			}
@@ -187,7 +187,7 @@ func (m *monRoll) TaskEnd(s *Sim, t *Task) {
 			m.checkBudget(s, t, v, f, maxU)
 		}
 		inc, ok1 := resolvePct(ru.SlowStartAdditiveIncrease, nT, true)
-		if ok1 && ru.MaxParallelPodCreation != nil && ru.SlowStartIntervalDuration != nil && ru.SlowStartIntervalDuration.Duration > 0 {
+		if ok1 && inc >= 0 && ru.MaxParallelPodCreation != nil && *ru.MaxParallelPodCreation >= 0 && ru.SlowStartIntervalDuration != nil && ru.SlowStartIntervalDuration.Duration > 0 {
 			var el time.Duration
 			if ac := ersCond(&v.ERS.Status, edsv1.ConditionTypeActive); ac != nil && ac.Status == corev1.ConditionTrue {
 				el = t.StartAt.Sub(ac.LastTransitionTime.Time) + time.Second + absDur(time.Duration(s.W.Cfg.SkewSec)*time.Second)
